@@ -201,7 +201,16 @@ func (p *parser) unary() Expr {
 			if ty.kind != "id" {
 				p.fail("expected bound variable type")
 			}
-			q.Vars = append(q.Vars, QVar{n.text, ty.text})
+			tname := ty.text
+			if p.isOp(".") { // qualified named type: pkg.Type
+				p.next()
+				t2 := p.next()
+				if t2.kind != "id" {
+					p.fail("expected type name after '.'")
+				}
+				tname += "." + t2.text
+			}
+			q.Vars = append(q.Vars, QVar{n.text, tname})
 			if p.isOp(",") {
 				p.next()
 				continue
